@@ -514,4 +514,5 @@ func Gen(r *hx.Run, focus string) {
 		w.transfer(r, c, sport, steps())
 	}
 	r.Extra["quiesce_timeouts"] = QuiesceTimeouts
+	r.Extra["late_frames"] = LateFrames
 }
